@@ -31,6 +31,37 @@ def strip_comments(src):
             out.append(src[i]); i += 1
     return "".join(out)
 
+def strip_verif(src):
+    """Remove everything guarded by `#[cfg(kanal_verif)]` (the verification hooks): the models describe
+    the crate as shipped, i.e. with the guard off."""
+    src = re.sub(r"#\[cfg_attr\(kanal_verif[^\]]*\]", "", src)
+    out, i = [], 0
+    tag = "#[cfg(kanal_verif)]"
+    while True:
+        j = src.find(tag, i)
+        if j < 0:
+            out.append(src[i:]); break
+        out.append(src[i:j])
+        k = j + len(tag)
+        while k < len(src) and src[k].isspace(): k += 1
+        if src.startswith("#[", k):              # further attributes on the same item
+            k = src.find("]", k) + 1
+            while k < len(src) and src[k].isspace(): k += 1
+        if src[k] == "{":
+            k = match_brace(src, k)
+        elif re.match(r"if\b", src[k:]):
+            b = src.find("{", k)
+            k = match_brace(src, b)
+        else:
+            semi = src.find(";", k)
+            brace = src.find("{", k)
+            if 0 <= brace < semi:                # an item with a body (fn, mod, impl …)
+                k = match_brace(src, brace)
+            else:
+                k = semi + 1
+        i = k
+    return "".join(out)
+
 def match_brace(s, i):
     """s[i] == '{' -> index after the matching '}'."""
     d = 0
@@ -94,7 +125,7 @@ def main():
     def emit_nat(name, n): L.append("def %s : Nat := %d" % (name, n))
     def emit_natlist(name, xs): L.append("def %s : List Nat := [%s]" % (name, ", ".join(xs)))
     srcdir, out = sys.argv[1], sys.argv[2]
-    rd = lambda f: strip_comments(open(os.path.join(srcdir, f)).read())
+    rd = lambda f: strip_verif(strip_comments(open(os.path.join(srcdir, f)).read()))
     lib, fut, sig, ptr, mtx, internal, backoff = (rd(f) for f in
         ("lib.rs", "future.rs", "signal.rs", "pointer.rs", "mutex.rs", "internal.rs", "backoff.rs"))
     L = []
